@@ -384,6 +384,29 @@ def run_c16(chk):
         sessions.append(s.ops)
         chk.case(tuple(prog), sample={"program": prog[:6]})
         idx += 1
+    # frames pushed by user-function calls live only inside one call, so no snapshot shows them: the 32-frame cap is decided by
+    # the outcome.  d open subroutines and a chain of k functions need d + k frames: more than 32 must be OUT OF MEMORY
+    # (missed seeded change C16-mut9: function calls no longer tested the cap, only the nesting guard at 64)
+    for d, k in ((28, 4), (29, 4), (30, 4), (0, 32), (0, 33), (0, 40), (31, 1), (32, 1), (32, 0), (33, 0), (20, 12), (20, 13), (10, 25)):
+        names = ["F%s" % (chr(65 + j // 26) + chr(65 + j % 26)) for j in range(k)]
+        prog = [f"{1 + j} DEF {names[j]}(X) = " + (f"{names[j + 1]}(X) + 1" if j + 1 < k else "X") for j in range(k)]
+        prog += [f"{100 + 10 * j} GOSUB {100 + 10 * (j + 1)}" for j in range(d)]
+        prog += [f"{100 + 10 * d} PRINT " + (f"{names[0]}(0)" if k else "0"), f"{100 + 10 * d + 5} END"]
+        s = sess.Session(h)
+        for l in prog:
+            each(s, s.line(l))
+        each(s, s.line("RUN"))
+        rows = s.run_until_idle(replies=[], max_turns=200)
+        for rw in rows:
+            each(s, rw)
+        oom = any("OutOfMemory" in rw.outcome for _, rw in s.ops if rw.kind == "row")
+        printed = [o for _, rw in s.ops if rw.kind == "row" for o in rw.outputs() if o.startswith("P")]
+        chk.count("frame-budget")
+        chk.case(("frames", d, k), sample={"subroutines": d, "function_chain": k})
+        if oom != (d + k > 32) or (not oom and not printed):
+            chk.fail("frames-over-cap" if not oom else "cap-too-low", f"{d} open subroutines + a chain of {k} functions ({d + k} frames): "
+                     f"{'OUT OF MEMORY' if oom else 'ran to completion, printed ' + str(printed)}", session_replay(s))
+        sessions.append(s.ops)
     for i in range(n):
         r = chk.rng.fork(("c16", i))
         if not h.alive():
